@@ -32,15 +32,18 @@ type slCfg struct {
 func (c slCfg) String() string { return fmt.Sprintf("n=%d,a=%d,m=%d,%s/%s", c.N, c.A, c.M, c.Pred, c.Place) }
 
 type slOp struct {
-	Op string `json:"op"` // Next | Save | Load | Drain
+	Op string `json:"op"` // Next | Save | Load | Drain | Adv | Take
 	I  int    `json:"i"`
 	B  int    `json:"b"`
+	T  int    `json:"t"` // Adv / Take: number of Next calls
 }
 
 func (o slOp) String() string {
 	switch o.Op {
 	case "Next", "Drain":
 		return fmt.Sprintf("%s(%d)", o.Op, o.I)
+	case "Adv", "Take":
+		return fmt.Sprintf("%s(%d,%d)", o.Op, o.I, o.T)
 	case "Save":
 		return fmt.Sprintf("Save(%d->b%d)", o.I, o.B)
 	}
@@ -48,8 +51,9 @@ func (o slOp) String() string {
 }
 
 type slIn struct {
-	Cfg slCfg  `json:"cfg"`
-	Ops []slOp `json:"ops"`
+	Cfg    slCfg  `json:"cfg"`
+	Ops    []slOp `json:"ops"`
+	Prefix int    `json:"prefix"` // > 0: the reference is only the first Prefix outputs (large configurations)
 }
 
 func (in slIn) key() string {
@@ -93,11 +97,14 @@ func newIter(c slCfg) *search.GraphIterator {
 	return search.WithPruning(c.N, c.A, c.M, pre, post)
 }
 
-func reference(c slCfg) (out [][]int, res string) {
+func reference(c slCfg) (out [][]int, res string) { return referenceN(c, 0) }
+
+// referenceN: the first limit outputs (all of them for limit = 0) of an uninterrupted iterator.
+func referenceN(c slCfg, limit int) (out [][]int, res string) {
 	out = [][]int{}
 	res = obs.Safe(func() {
 		it := newIter(c)
-		for it.Next() {
+		for (limit == 0 || len(out) < limit) && it.Next() {
 			out = append(out, ranksOf(it.Value()))
 			if len(out) > 400000 {
 				panic("runaway iterator")
@@ -141,6 +148,31 @@ func session(in slIn, ref [][]int, emit func(tr.E)) {
 			if res != "ok" {
 				return
 			}
+		case "Adv", "Take":
+			oks := 0
+			last := []int{}
+			vals := [][]int{}
+			res := obs.Safe(func() {
+				for k := 0; k < o.T; k++ {
+					if !its[o.I].Next() {
+						break
+					}
+					oks++
+					if o.Op == "Take" || k == o.T-1 {
+						last = ranksOf(its[o.I].Value())
+					}
+					if o.Op == "Take" {
+						vals = append(vals, last)
+					}
+				}
+				if oks > 0 && len(last) == 0 {
+					last = ranksOf(its[o.I].Value())
+				}
+			})
+			emit(tr.E{"ev": o.Op, "i": o.I, "t": o.T, "oks": oks, "last": last, "vals": vals, "res": res})
+			if res != "ok" {
+				return
+			}
 		case "Drain":
 			vals := [][]int{}
 			res := obs.Safe(func() {
@@ -163,7 +195,7 @@ func session(in slIn, ref [][]int, emit func(tr.E)) {
 }
 
 func runSession(w *tr.W, in slIn) {
-	ref, res := reference(in.Cfg)
+	ref, res := referenceN(in.Cfg, in.Prefix)
 	w.Emit(tr.E{"ev": "Ref", "cfg": in.Cfg, "out": ref, "res": res})
 	if res != "ok" {
 		return
@@ -373,6 +405,33 @@ func driveC04(c *Ctx) {
 			runSession(set.Begin(in.key(), tr.E{"input": in}), in)
 			sessions++
 		}
+	}
+	// large configurations: only a prefix of the output is examined, with a save every few positions in one pass
+	type bigCfg struct {
+		n, prefix, step int
+	}
+	bigs := []bigCfg{{8, 2500, 3}, {9, 4000, 4}, {10, 9000, 4}}
+	if c.Thorough() {
+		bigs = []bigCfg{{8, 12346, 6}, {9, 14000, 6}, {10, 14000, 6}, {11, 12000, 5}}
+	}
+	for _, bc := range bigs {
+		cfg := slCfg{N: bc.n, A: 0, M: 1, Pred: "none", Place: "none"}
+		ops := []slOp{}
+		nb := 0
+		for pos := 0; pos+bc.step+45 < bc.prefix && nb < 2400; pos += bc.step {
+			nb++
+			ops = append(ops, slOp{Op: "Save", I: 1, B: nb}, slOp{Op: "Adv", I: 1, T: bc.step})
+			positions++
+		}
+		for b := 1; b <= nb; b++ {
+			ops = append(ops, slOp{Op: "Load", I: 2, B: b}, slOp{Op: "Take", I: 2, T: 12})
+			if b%50 == 0 { // a chain: save the loaded iterator again and load that
+				ops = append(ops, slOp{Op: "Save", I: 2, B: 2450}, slOp{Op: "Load", I: 3, B: 2450}, slOp{Op: "Take", I: 3, T: 20})
+			}
+		}
+		in := slIn{Cfg: cfg, Ops: ops, Prefix: bc.prefix}
+		runSession(set.Begin(in.key(), tr.E{"input": in}), in)
+		sessions++
 	}
 	meta["sessions"] = sessions
 	meta["save_positions"] = positions
